@@ -82,8 +82,8 @@ def disconnected(rng, shape, dtype):
 def no_background(rng, shape, dtype):
     """Tiling by rectangular blocks, every pixel labelled, each label connected."""
     ny, nx = shape
-    ycuts = sorted({0, ny} | {int(v) for v in rng.integers(1, ny, size=int(rng.integers(0, 3)))})
-    xcuts = sorted({0, nx} | {int(v) for v in rng.integers(1, nx, size=int(rng.integers(0, 3)))})
+    ycuts = sorted({0, ny} | ({int(v) for v in rng.integers(1, ny, size=int(rng.integers(0, 3)))} if ny > 1 else set()))
+    xcuts = sorted({0, nx} | ({int(v) for v in rng.integers(1, nx, size=int(rng.integers(0, 3)))} if nx > 1 else set()))
     nblk = (len(ycuts) - 1) * (len(xcuts) - 1)
     vals = _label_values(rng, nblk, dtype)
     rng.shuffle(vals)
@@ -188,4 +188,6 @@ def scene(rng, n=None):
         px, py = rng.uniform(2, n - 2, 2)
         img += rng.uniform(30, 80) * np.exp(-((xx - px) ** 2 + (yy - py) ** 2) / (2 * 1.2 ** 2))
     img += rng.normal(0.0, 1.0, img.shape)
+    for _ in range(int(rng.integers(0, 5))):            # hot pixels: components pruned by npixels -> relabel path
+        img[int(rng.integers(0, n)), int(rng.integers(0, n))] += rng.uniform(20, 60)
     return img
